@@ -1438,3 +1438,29 @@ package rockredis
 //@   requires db != nil
 //@   ensures result1 == nil && (ghost(collexpired, db) == 1 || ghost(collabsent, db) == 1) ==> result0 == 0
 //@   ensures result1 == nil ==> result0 == 0 || result0 == 1
+
+// ---- memcomparable byte-string encoding (C12: the composite-key codec): groups of 8 data bytes, zero padded, each
+// followed by a marker 0xFF - padCount; a full group has marker 0xFF and is always followed by another group, so the
+// encoding ends with the only group whose marker is below 0xFF - this is what makes concatenations unambiguous.
+// Under contract: the group structure of the encoder (every turn emits exactly one 9-byte group, (len/8)+1 groups in
+// all) and all its slice bounds; the byte-level content posts were written and dropped (aliasing of the package-level
+// pad buffer with a fresh result cannot be excluded by the engine) ----
+//@ property C12
+//@ func reallocBytes(b []byte, n int) []byte
+//@   requires 0 <= n && n < 17592186044416
+//@   ensures len(result) == len(b) && (sameSlice(result, b) || fresh(result)) && (forall i int :: 0 <= i && i < len(b) ==> result[i] == old(b[i]))
+//@ func EncodeBytes(b []byte, data []byte) []byte
+//@   requires len(data) < 1099511627776 && len(pads) == 8
+//@   ensures len(result) == len(b) + (len(data) / 8 + 1) * 9
+//@   modifies *
+//@ loop 1
+//@   invariant idx % 8 == 0 && 0 <= idx && idx <= dLen + 8 && dLen == len(data) && len(result) == len(b) + (idx / 8) * 9
+//@ func reverseBytes(b []byte)
+//@   trusted in-place bitwise complement
+//@   modifies b[0:len(b)]
+//@ func decodeBytes(b []byte, reverse bool) ([]byte, []byte, error)
+//@   opt autoloops
+//@   ensures result2 != nil ==> result0 == nil && result1 == nil
+//@   modifies *
+//@ loop 1
+//@   invariant len(b) <= old(len(b)) && (old(len(b)) - len(b)) % 9 == 0
